@@ -93,7 +93,7 @@ def plan(tier, seed):
                         batches.append({"gen": "enum", "proto": proto, "role": role, "prefix": prefix, "logger": logger,
                                         "wt": bool(part % 2), "part": part, "parts": parts, "keep": keep, "tier": tier,
                                         "seed": seed})
-    nrand = 24 if not thorough else 400
+    nrand = 24 if not thorough else 300
     for i in range(nrand):
         role = ("server", "client")[i % 2]
         prefix = G.H3_PREFIXES[(i // 2) % len(G.H3_PREFIXES)]
@@ -102,7 +102,16 @@ def plan(tier, seed):
                             "seed": seed * 1000003 + i, "count": 300 if not thorough else 600})
     # spread expensive and cheap batches evenly over the run (deterministic shuffle)
     random.Random(seed).shuffle(batches)
-    return batches
+    # one batch of every (protocol, role, logger) class first, so that a run cut short by the budget still meets the floors
+    front, rest, seen = [], [], set()
+    for b in batches:
+        k = (b["proto"], b["role"], b["logger"])
+        if k in seen:
+            rest.append(b)
+        else:
+            seen.add(k)
+            front.append(b)
+    return front + rest
 
 
 # ---------------------------------------------------------------------------- victim
